@@ -50,6 +50,9 @@ impl FromMeta for Callable {
     fn from_expr(expr: &syn::Expr) -> Result<Self> {
         match expr {
             syn::Expr::Path(_) | syn::Expr::Closure(_) => Ok(Self { call: expr.clone() }),
+            // see `FromMeta::from_expr`: invisible groups, as introduced by `macro_rules!`
+            // forwarding, are transparent
+            syn::Expr::Group(group) => Self::from_expr(&group.expr),
             _ => Err(Error::unexpected_expr_type(expr)),
         }
     }
